@@ -512,7 +512,7 @@ def check_sparse_merge(ctx, rng, rows_up=None, rows_down=None, n_per=None,
     from cell_type_mapper.utils.utils import choose_int_dtype
     if rows_up is None:
         n_genes = rng.choice([1, 5, 40, 300])
-        n_pairs = rng.choice([1, 2, 7, 8, 9, 16, 17, 25, 40])
+        n_pairs = rng.choice([1, 2, 7, 8, 9, 16, 17, 25, 40, 90, 105])
         n_per = rng.choice([8, 8, 16, 24])
 
         def rrow():
@@ -530,6 +530,7 @@ def check_sparse_merge(ctx, rng, rows_up=None, rows_down=None, n_per=None,
     ctx.count('sparse-merge')
     with pipeline.workdir('c11s_') as d:
         paths = {}
+        done_files = {'up': [], 'down': []}
         cols = list(range(0, n_pairs, n_per))
         rng_order = list(cols)
         rng.shuffle(rng_order)      # completion order is irrelevant
@@ -543,6 +544,11 @@ def check_sparse_merge(ctx, rng, rows_up=None, rows_down=None, n_per=None,
             _write_to_tmp_file(up_reg_lookup=up, down_reg_lookup=dn,
                                output_path=p, idx_dtype=idt)
             paths[col0] = p
+            with h5py.File(p, 'r') as f:
+                for dname in ('up', 'down'):
+                    done_files[dname].append([col0, [
+                        [int(x) for x in f[dname + '_pair_idx'][()]],
+                        [int(x) for x in f[dname + '_gene_idx'][()]]]])
         out = d / 'merged.h5'
         with h5py.File(out, 'w') as f:
             f.create_dataset('n_pairs', data=n_pairs)
@@ -571,7 +577,12 @@ def check_sparse_merge(ctx, rng, rows_up=None, rows_down=None, n_per=None,
             return
         if ctx.driver_ok:
             m = ctx.model('refmarkers.sparse', {'rows': rows, 'nPer': n_per})
-            if m['merged'] != [ip, ix] or m['direct'] != [ip, ix]:
+            # the keyed merge of the model on the worker files themselves, in
+            # the order they were written (= completion order)
+            mk = ctx.model('refmarkers.mergeKeyed',
+                           {'done': done_files[dname]})
+            if m['merged'] != [ip, ix] or m['direct'] != [ip, ix] or \
+                    mk != [ip, ix]:
                 detail['model'] = m
                 corr_violation(ctx, 'sparse', 'CTM.RefMarkers.mergeSparse ~ '
                                '_merge_sparse_by_pair_files', detail)
@@ -854,7 +865,7 @@ def add_exact(oracle, a, b, o):
 
 
 def check_tables(ctx, route, prob_json, oracle, tables, th, cfg, detail0,
-                 mask=None):
+                 mask=None, nproc=1):
     """predicates on the written tables + model correspondence.
     returns True if the tables looked fine"""
     G = oracle.G
@@ -891,6 +902,22 @@ def check_tables(ctx, route, prob_json, oracle, tables, th, cfg, detail0,
                           'sparse_by_gene/%s is not the transpose of '
                           'sparse_by_pair/%s' % (d, d), detail0)
             return False
+    if ctx.driver_ok:
+        # composed model: pair-major rows -> B's on-disk transposition
+        # (serial for one worker, parallel otherwise) == the written arrays
+        for d in ('up', 'down'):
+            mg = ctx.model('refmarkers.byGene', {
+                'rows': view['pair_' + d], 'nGenes': G, 'nProc': nproc,
+                'chunk': ctx.rng.choice([1, 2, 7, 100])})
+            got = [[int(x) for x in
+                    tables['raw']['sparse_by_gene/%s_gene_idx' % d]],
+                   [int(x) for x in
+                    tables['raw']['sparse_by_gene/%s_pair_idx' % d]]]
+            if mg.get('ok') != got:
+                corr_violation(ctx, 'byGene', 'CTM.RefMarkers.byGeneTable ~ '
+                               'add_sparse_by_gene_markers_to_file',
+                               dict(detail0, direction=d, model=mg))
+                return False
     gene_idx = gene_idx_of(oracle.genes, cfg['gene_list'])
     allowed = set(range(G)) if gene_idx is None else set(gene_idx)
     exact = cfg['exact'] and route == 'main'
@@ -1197,7 +1224,7 @@ def run_file_case(ctx, prob, cfg, label='gen'):
                 route_error(ctx, 'main', r, detail0, expect)
         if res[0]['ok']:
             check_tables(ctx, 'main', pj, oracle, res[0]['tables'], th, cfg,
-                         detail0)
+                         detail0, nproc=cfg['procs'][0])
             # ---- swap: rename so that every pair swaps order --------------
             check_swap(ctx, prob, cfg, res[0]['tables'], oracle, d, detail0)
         # ---- p-value-mask route ------------------------------------------
@@ -1252,7 +1279,7 @@ def run_file_case(ctx, prob, cfg, label='gen'):
             if okk:
                 check_tables(ctx, 'mask-route', pj, oracle,
                              fres[okk[0]]['tables'], th, cfg, detail0,
-                             mask=mask)
+                             mask=mask, nproc=cfg['procs'][okk[0]])
 
 
 def check_swap(ctx, prob, cfg, tables, oracle, d, detail0):
